@@ -396,7 +396,7 @@ def run_history(hist, want_state=True):
             else:
                 what_key = "table|" + ("symbol-entry" if spelling(q) == "atomic" else "written-back-entry")
             failures.append(dict(
-                key=f"C12|stale|{what_key}|after-{cause}",
+                key=f"C12|{'lost' if got[0] == 'err' and want[0] == 'ok' else 'stale'}|{what_key}|after-{cause}",
                 what=f"after {hist}: {kind} {q!r} gives {got}, a fresh registry with the same contents gives {want}",
                 py=HEADER + history_src(hist) + fresh_src(cont.user) + probe_prefix(PROBES, kind, q)
                    + f"a = {probe_src(kind, q, 'r')}; b = {probe_src(kind, q, 'F')}\nassert close(a, b), (a, b)\n"))
